@@ -342,6 +342,83 @@ def misc():
     return out
 
 
+# ---------------------------------------------------------------- numeric constants of the samplers
+def nat_expr(e):
+    """arithmetic over named naturals: names, constants, + * // (Lean `/` on Nat is floor division)"""
+    if isinstance(e, ast.Name):
+        return e.id
+    if isinstance(e, ast.Constant) and isinstance(e.value, int):
+        return str(e.value)
+    if isinstance(e, ast.BinOp) and isinstance(e.op, (ast.Add, ast.Mult, ast.FloorDiv, ast.Sub)):
+        op = {ast.Add: "+", ast.Mult: "*", ast.FloorDiv: "/", ast.Sub: "-"}[type(e.op)]
+        return "({} {} {})".format(nat_expr(e.left), op, nat_expr(e.right))
+    raise Unsupported(src(e))
+
+
+def names_in(e):
+    return sorted({n.id for n in ast.walk(e) if isinstance(n, ast.Name)})
+
+
+def fn_named(tree, name):
+    for n in ast.walk(tree):
+        if isinstance(n, ast.FunctionDef) and n.name == name:
+            return n
+    return None
+
+
+def sampler_constants():
+    """(lean name, parameter names, lean expression or None, description)"""
+    out = []
+
+    def add(name, expr_node, descr):
+        if expr_node is None:
+            out.append((name, [], None, descr + " (NOT FOUND)"))
+            return
+        try:
+            out.append((name, names_in(expr_node), nat_expr(expr_node), descr))
+        except Unsupported as u:
+            out.append((name, names_in(expr_node), None, descr + " (unsupported: {})".format(u)))
+
+    def while_bound(fn, var):
+        if fn is None:
+            return None
+        for n in ast.walk(fn):
+            if isinstance(n, ast.While):
+                for c in ast.walk(n.test):
+                    if isinstance(c, ast.Compare) and isinstance(c.left, ast.Name) and c.left.id == var \
+                            and isinstance(c.ops[0], ast.Lt):
+                        return c.comparators[0]
+        return None
+
+    def for_range(fn, var=None):
+        if fn is None:
+            return None
+        for n in ast.walk(fn):
+            if isinstance(n, ast.For) and isinstance(n.iter, ast.Call) and isinstance(n.iter.func, ast.Name) \
+                    and n.iter.func.id == "range" and len(n.iter.args) == 1 \
+                    and (var is None or (isinstance(n.target, ast.Name) and n.target.id == var)):
+                return n.iter.args[0]
+        return None
+
+    def if_gt(fn, var):
+        if fn is None:
+            return None
+        for n in ast.walk(fn):
+            if isinstance(n, ast.If) and isinstance(n.test, ast.Compare) and isinstance(n.test.left, ast.Name) \
+                    and n.test.left.id == var and isinstance(n.test.ops[0], ast.Gt):
+                return n.test.comparators[0]
+        return None
+    t = parse("cnfgen/families/randomformulas.py")
+    add("kcnfRetryBudget", while_bound(fn_named(t, "sample_clauses") or t, "t"), "rejection rounds of random k-CNF sampling")
+    t = parse("cnfgen/families/randomkxor.py")
+    add("kxorRetryBudget", while_bound(t, "t"), "rejection rounds of random k-XOR sampling")
+    t = parse("cnfgen/graphs.py")
+    add("glrmDenseThreshold", if_gt(fn_named(t, "bipartite_random_m_edges"), "m"), "m above which glrm samples densely")
+    add("regularRetries", for_range(fn_named(t, "bipartite_random_regular"), "retries"), "random tries per edge of `regular`")
+    add("addEdgesRetries", for_range(fn_named(t, "add_random_missing_edges"), "_"), "sparse tries of addedges")
+    return out
+
+
 # ---------------------------------------------------------------- emit
 def emit():
     H = helpers()
@@ -400,6 +477,13 @@ def emit():
     L.append("def commentChar : List (String × String) := {}\n".format(
         llist(M["commentChar"], lambda p: "({}, {})".format(lstr(p[0]), lstr(p[1])))))
     L.append("def clausesPerPage : Nat := {}\n".format(M["clausesPerPage"] if M["clausesPerPage"] is not None else 0))
+    for name, params, expr, descr in sampler_constants():
+        L.append("/-- {} -/".format(descr))
+        ps = "".join(" ({} : Nat)".format(p_) for p_ in params)
+        if expr is None:
+            L.append("def {}{} : Nat := unsupportedConstant_{}\n".format(name, ps, name))
+        else:
+            L.append("def {}{} : Nat := {}\n".format(name, ps, expr))
     L.append("end Cnfgen.Gen")
     return "\n".join(L) + "\n"
 
